@@ -325,6 +325,7 @@ func TestC11(t *testing.T) {
 			run.NotExhaustive("stopped before scenario " + c.name)
 			break
 		}
+		setupRun = run
 		sc := mkScenario(t, c.opt)
 		d0 := &c11Driver{t: t, run: run, sc: sc, mons: mons}
 		d0.drive(c)
